@@ -30,7 +30,7 @@ INFO = dict(
               'UTF-8 of what was supplied (own decoder back to code points); empty dst/dtab; payload; discard body = tag + reason. '
               'ReadHeader(_BuildHeader(tag,t,n)[4:]) == (t, tag) for every tag and every reply type byte; _Unmarshal_Rdispatch '
               'dispatches OK/ERROR/NACK with reply contexts skipped for symbolic status bytes.',
-  bounds={'quick': 'contexts: <=1 caller entry x <=2 characters per key/value (+ client id <=2 chars + deadline); payload <=3 bytes; tag/type/lengths full range',
+  bounds={'quick': 'contexts: <=1 caller entry x <=2 characters per key/value (+ client id <=2 chars + deadline); payload <=3 bytes; tag/type/lengths full range; 2 different requests marshalled at symbolic instants while the transport is still opening',
           'thorough': '<=2 caller entries x <=3 characters; payload <=4 bytes'},
   outside=['longer strings / more entries than the bound', 'the inner Thrift call bytes (opaque blob here; C14)', 'lone surrogates in text (cannot be encoded at all)'],
   stubs=['struct.pack/unpack -> symbolic big-endian model with range errors (3.4), validated against CPython struct',
